@@ -276,7 +276,16 @@ func (a *genABI) VerifyTransaction(req *labi.VerifyTransactionRequest) (*labi.Ve
 }
 func (a *genABI) ExecuteTransaction(req *labi.ExecuteTransactionRequest) (*labi.ExecuteTransactionResponse, error) {
 	if a.outcome[string(req.Transaction.ID)] == "xf" {
-		return &labi.ExecuteTransactionResponse{Result: labi.TxExecuteResultInvalid}, nil
+		// an application that logged events before it rejected the transaction: the transaction is dropped, and so is
+		// everything it produced (every other rejected transaction: with events)
+		if len(req.Transaction.ID) > 0 && req.Transaction.ID[0]%2 == 0 {
+			return &labi.ExecuteTransactionResponse{Result: labi.TxExecuteResultInvalid}, nil
+		}
+		r, err := a.Toy.ExecuteTransaction(req)
+		if err != nil {
+			return nil, err
+		}
+		return &labi.ExecuteTransactionResponse{Result: labi.TxExecuteResultInvalid, Events: r.Events}, nil
 	}
 	return a.Toy.ExecuteTransaction(req)
 }
